@@ -3,6 +3,7 @@ package main
 // Calls: contracts at call sites, inlining, built-ins, loop cutting.
 
 import (
+	"go/constant"
 	"fmt"
 	"go/token"
 	"go/types"
@@ -82,6 +83,17 @@ func (f *Frame) callCommon(c *ssa.CallCommon, in ssa.Instruction, st *PState, rt
 		}
 		return f.havocCall("dynamic call", in, st, rt, args)
 	}
+	if callee.String() == "fmt.Sprintf" {
+		if v, ok := f.sprintfModel(c, in, st, rt); ok {
+			return v
+		}
+	}
+	return f.callFunction(callee, args, bindings, in, st, rt)
+}
+
+// callFunction dispatches a call of a known function: external model, contract, inlining, havoc.
+func (f *Frame) callFunction(callee *ssa.Function, args, bindings []Val, in ssa.Instruction, st *PState, rt types.Type) Val {
+	ex := f.ex
 	// external models first
 	if v, ok := f.externalModel(callee, args, in, st, rt); ok {
 		return v
@@ -93,6 +105,176 @@ func (f *Frame) callCommon(c *ssa.CallCommon, in ssa.Instruction, st *PState, rt
 		return f.inline(callee, args, bindings, in, st, rt)
 	}
 	return f.havocCall(callee.String(), in, st, rt, args)
+}
+
+// sprintfModel: fmt.Sprintf with a constant format made of literal text and plain %s / %d / %v verbs is the
+// left-associated concatenation of the pieces. A %s/%v operand is a string, a byte slice without methods (its
+// content), or a value whose static type has a String() string method and no Format/Error/GoString method (the
+// result of that method, through its contract); a %d/%v operand of integer type is its decimal form (int_str).
+// Anything else: not modelled (the generic T-PURE havoc applies).
+func (f *Frame) sprintfModel(c *ssa.CallCommon, in ssa.Instruction, st *PState, rt types.Type) (Val, bool) {
+	ex := f.ex
+	if len(c.Args) != 2 {
+		return Val{}, false
+	}
+	fc, ok := c.Args[0].(*ssa.Const)
+	if !ok || fc.Value == nil || fc.Value.Kind() != constant.String {
+		return Val{}, false
+	}
+	format := constant.StringVal(fc.Value)
+	// operands: the variadic slice is `slice (new [n]interface{})[:]` filled by stores through IndexAddr
+	var ops []ssa.Value
+	switch va := c.Args[1].(type) {
+	case *ssa.Const:
+		if !va.IsNil() {
+			return Val{}, false
+		}
+	case *ssa.Slice:
+		al, ok := va.X.(*ssa.Alloc)
+		if !ok || va.Low != nil || va.High != nil {
+			return Val{}, false
+		}
+		at, ok := al.Type().Underlying().(*types.Pointer).Elem().Underlying().(*types.Array)
+		if !ok {
+			return Val{}, false
+		}
+		ops = make([]ssa.Value, at.Len())
+		for _, r := range *al.Referrers() {
+			switch x := r.(type) {
+			case *ssa.IndexAddr:
+				ic, ok := x.Index.(*ssa.Const)
+				if !ok {
+					return Val{}, false
+				}
+				k := int(ic.Int64())
+				for _, r2 := range *x.Referrers() {
+					sto, ok := r2.(*ssa.Store)
+					if !ok || sto.Addr != x || k < 0 || k >= len(ops) || ops[k] != nil {
+						return Val{}, false
+					}
+					mi, ok := sto.Val.(*ssa.MakeInterface)
+					if !ok {
+						return Val{}, false
+					}
+					ops[k] = mi.X
+				}
+			case *ssa.Slice:
+				if x != va {
+					return Val{}, false
+				}
+			default:
+				return Val{}, false
+			}
+		}
+		for _, o := range ops {
+			if o == nil {
+				return Val{}, false
+			}
+		}
+	default:
+		return Val{}, false
+	}
+	acc := "str_empty"
+	lit := ""
+	flush := func() {
+		if lit != "" {
+			acc = ex.strCat(acc, ex.reg.StrLit(lit))
+			lit = ""
+		}
+	}
+	k := 0
+	for i := 0; i < len(format); i++ {
+		ch := format[i]
+		if ch != '%' {
+			lit += string(ch)
+			continue
+		}
+		if i+1 >= len(format) {
+			return Val{}, false
+		}
+		i++
+		verb := format[i]
+		if verb == '%' {
+			lit += "%"
+			continue
+		}
+		if verb != 's' && verb != 'd' && verb != 'v' || k >= len(ops) {
+			return Val{}, false
+		}
+		op := ops[k]
+		k++
+		piece, ok := f.sprintfPiece(verb, op, in, st)
+		if !ok {
+			return Val{}, false
+		}
+		flush()
+		acc = ex.strCat(acc, piece)
+	}
+	if k != len(ops) {
+		return Val{}, false
+	}
+	flush()
+	ex.vc.trusted["T-FMT fmt.Sprintf with a constant format of literal text and %s/%d/%v verbs is the concatenation of the literal pieces, the decimal form of integer operands (int_str) and the String() result / content of the other operands"] = true
+	return Val{T: ex.strInv(acc), S: SStr, GT: rt}, true
+}
+
+func (f *Frame) sprintfPiece(verb byte, op ssa.Value, in ssa.Instruction, st *PState) (string, bool) {
+	ex := f.ex
+	t := op.Type()
+	ms := ex.P.prog.MethodSets.MethodSet(t)
+	has := func(n string) *types.Selection {
+		for i := 0; i < ms.Len(); i++ {
+			if ms.At(i).Obj().Name() == n {
+				return ms.At(i)
+			}
+		}
+		return nil
+	}
+	if has("Format") != nil || has("Error") != nil || has("GoString") != nil {
+		return "", false
+	}
+	v := f.val(op, st)
+	if sel := has("String"); sel != nil {
+		if verb == 'd' {
+			return "", false
+		}
+		sig, ok := sel.Type().(*types.Signature)
+		if !ok || sig.Params().Len() != 0 || sig.Results().Len() != 1 || ex.reg.SortOf(sig.Results().At(0).Type()) != SStr {
+			return "", false
+		}
+		if _, isPtr := t.Underlying().(*types.Pointer); isPtr {
+			return "", false // a nil pointer prints "<nil>": not modelled
+		}
+		if _, isIface := t.Underlying().(*types.Interface); isIface {
+			return "", false
+		}
+		fn := ex.P.prog.MethodValue(sel)
+		if fn == nil {
+			return "", false
+		}
+		r := f.callFunction(fn, []Val{v}, nil, in, st, sig.Results().At(0).Type())
+		if r.S != SStr {
+			return "", false
+		}
+		return r.T, true
+	}
+	switch ex.reg.SortOf(t) {
+	case SStr:
+		if verb == 'd' {
+			return "", false
+		}
+		return f.plain(v, st), true
+	case SBytes:
+		if verb != 's' {
+			return "", false
+		}
+		return app("b_str", f.plain(v, st)), true
+	case SInt:
+		if b, ok := t.Underlying().(*types.Basic); ok && b.Info()&types.IsInteger != 0 && verb != 's' {
+			return app("int_str", f.plain(v, st)), true
+		}
+	}
+	return "", false
 }
 
 func (f *Frame) canInline(fn *ssa.Function) bool {
@@ -400,7 +582,15 @@ func (f *Frame) applyContract(ct *Contract, fn *ssa.Function, sig *types.Signatu
 		st.brk = nb
 	} else {
 		env.what = "modifies of " + name
-		locs := f.evalLocs(env, ct.Modifies)
+		mods := ct.Modifies
+		if ex.topFrame != nil && ex.topFrame.contract != nil && ex.topFrame.contract.CalleeTrusts != nil {
+			for _, en := range ex.topFrame.contract.CalleeTrusts[strings.ReplaceAll(ct.Target, " ", "")] {
+				if en.Trusted {
+					mods = append(append([]Clause{}, mods...), en)
+				}
+			}
+		}
+		locs := f.evalLocs(env, mods)
 		// fresh(result) objects are implicitly modifiable
 		resVars := map[string]Val{}
 		bindResults(resVars, sig, res)
@@ -441,6 +631,16 @@ func (f *Frame) applyContract(ct *Contract, fn *ssa.Function, sig *types.Signatu
 	for _, en := range ct.Trusts {
 		ex.vc.AssumeIf(st.reach, penv.boolE(en.Expr))
 		ex.vc.trusted[shortPkg(ct.Pkg)+"."+ct.Target+" trusts "+en.Src] = true
+	}
+	if ex.topFrame != nil && ex.topFrame.contract != nil && ex.topFrame.contract.CalleeTrusts != nil {
+		// extra trusted postconditions of this callee, stated by (and used only in) the function under verification
+		for _, en := range ex.topFrame.contract.CalleeTrusts[strings.ReplaceAll(ct.Target, " ", "")] {
+			if en.Trusted {
+				continue // a frame extension (handled with the modifies clause)
+			}
+			ex.vc.AssumeIf(st.reach, penv.boolE(en.Expr))
+			ex.vc.trusted[shortFn(ex.top)+" calleetrusts "+ct.Target+" :: "+en.Src] = true
+		}
 	}
 	for _, en := range ct.Grants {
 		ex.vc.AssumeIf(st.reach, penv.boolE(en.Expr))
@@ -1371,7 +1571,11 @@ func (f *Frame) runCallback(cb *Closure, ys []Val, st *PState) (*PState, Val, bo
 	}
 	merged := nf.mergeStates(edges)
 	res := Val{T: "false", S: SBool}
+	ex.lastCbRets = nil
 	if fn.Signature.Results().Len() == 1 && ex.reg.SortOf(fn.Signature.Results().At(0).Type()) == SBool {
+		for k := range rets {
+			ex.lastCbRets = append(ex.lastCbRets, [2]string{rets[k].st.reach, rets[k].results[0].T})
+		}
 		t := ""
 		for k := len(rets) - 1; k >= 0; k-- {
 			if t == "" {
@@ -1511,6 +1715,9 @@ func (f *Frame) iterateCall(ct *Contract, sig *types.Signature, args []Val, vars
 	}
 	for _, y := range ct.Yields {
 		ex.vc.AssumeIf(body.reach, ye.boolE(y.Expr))
+		if y.Trusted {
+			ex.vc.trusted[shortPkg(ct.Pkg)+"."+ct.Target+" trustyields "+y.Src] = true
+		}
 	}
 	if ex.iterSelf != nil {
 		ex.iterSelf.stops = nil
@@ -1529,6 +1736,16 @@ func (f *Frame) iterateCall(ct *Contract, sig *types.Signature, args []Val, vars
 		ex.vc.AddObligation(&Obligation{Name: fmt.Sprintf("%s/%s/iter-stop[%s]%s", tag, ex.oblPrefix, key, f.inlineSuffix()), Tag: tag, Kind: "iter-stop", Func: ex.top.String(),
 			Goal: implies(post.reach, implies(res.T, or(ex.iterSelf.stops...))), Pos: f.pos(in),
 			Desc: "the iteration stops early only when the caller's callback returned true (no element is silently cut off)"})
+		// the same, per return site of the wrapper closure: a return site added later is a new obligation name, so it is
+		// not masked when the combined obligation above is already refuted by another site (known finding)
+		for k, r := range ex.lastCbRets {
+			if r[1] == "false" {
+				continue
+			}
+			ex.vc.AddObligation(&Obligation{Name: fmt.Sprintf("%s/%s/iter-stop[%s]@ret%d%s", tag, ex.oblPrefix, key, k+1, f.inlineSuffix()), Tag: tag, Kind: "iter-stop", Func: ex.top.String(),
+				Goal: implies(r[0], implies(r[1], or(ex.iterSelf.stops...))), Pos: f.pos(in),
+				Desc: fmt.Sprintf("return site %d of the wrapper callback answers 'stop' only when the caller's callback returned true", k+1)})
+		}
 	}
 	ep := mkInvEnv(post, fmt.Sprintf("(+ %s 1)", n), res.T)
 	for _, inv := range invs {
@@ -1873,6 +2090,9 @@ func (f *Frame) selfYield(args []Val, in ssa.Instruction, st *PState, rt types.T
 	env := &SpecEnv{ex: ex, vars: vars, stypes: map[string]*SType{}, cur: st, old: ex.entry, pkg: ex.P.typesPkg(is.ct.Pkg), expand: ex.expands, what: "yields of " + is.ct.Target}
 	if ex.dryDepth == 0 {
 		for _, y := range is.ct.Yields {
+			if y.Trusted {
+				continue
+			}
 			tag := y.Tag
 			if tag == "" {
 				tag = "yield"
